@@ -71,6 +71,8 @@ func VH_C09() {
 		attrs = Attrs{Group("g", "x", 1)}
 	case 3:
 		attrs = Attrs{NewAttr("e", errors.New("boom")), NewAttr("k", "v")}
+	case 4:
+		attrs = Attrs{NewAttr("a", 1), NewAttr("time", vTime0())} // the attribute keyed "time" has its own rendering path
 	}
 	if sev == cNoColor || sev == Level(77) {
 		// a severity without an entry in the colour table
